@@ -14,8 +14,46 @@ type ColAuto struct {
 	DataType ColumnType
 }
 
+// maxAutoTypeDepth limits nesting of the type that ColAuto infers.
+//
+// Infer recurses once per level of nesting and the type comes from the wire
+// (block header), so unlimited nesting exhausts the stack, which is fatal.
+const maxAutoTypeDepth = 1000
+
+// typeDepth returns maximum nesting of parentheses in s, ignoring quoted
+// strings (enum names, time zones).
+func typeDepth(s string) int {
+	var (
+		depth, maxDepth int
+		quoted          bool
+	)
+	for i := 0; i < len(s); i++ {
+		switch c := s[i]; {
+		case quoted:
+			if c == '\\' {
+				i++ // skip escaped character
+			} else if c == '\'' {
+				quoted = false
+			}
+		case c == '\'':
+			quoted = true
+		case c == '(':
+			depth++
+			if depth > maxDepth {
+				maxDepth = depth
+			}
+		case c == ')':
+			depth--
+		}
+	}
+	return maxDepth
+}
+
 // Infer and initialize Column from ColumnType.
 func (c *ColAuto) Infer(t ColumnType) error {
+	if len(t) > maxAutoTypeDepth && typeDepth(string(t)) > maxAutoTypeDepth {
+		return errors.Errorf("type is nested too deep (maximum is %d)", maxAutoTypeDepth)
+	}
 	if c.Data != nil && !c.Type().Conflicts(t) {
 		if c.DataType == t {
 			// Already ok.
